@@ -6,7 +6,7 @@ package main
 //
 //	{"kind":"strfunc","name":N,"dir":D,"func":F,
 //	 "externals":{"<expr text>":"param"},          pure inputs read off the environment (pid, clock…)
-//	 "fallible":{"<expr text>":"param"},           `x, err := <expr>` + `if err != nil { return …, err }`
+//	 "fallible":{"<expr text>":"param"},           `x, err := <expr>` + `if err != nil { … return … }` (x string or bool)
 //	 "skip":["<stmt text>", …]}                    statements without effect on the result (t := time.Now())
 //
 // Accepted subset (anything else is REJECTED, never guessed):
@@ -100,12 +100,22 @@ func sfKindOf(t types.Type) (string, error) {
 
 func (t *sfTrans) param(name, kind string) string {
 	name = strings.NewReplacer(".", "_", "(", "", ")", "", "*", "").Replace(name)
+	if sfLeanKeywords[name] {
+		name += "_"
+	}
 	if _, ok := t.seen[name]; !ok {
 		t.seen[name] = kind
 		t.params = append(t.params, name)
 	}
 	return name
 }
+
+var sfLeanKeywords = map[string]bool{"matches": true, "match": true, "fun": true, "let": true, "in": true, "if": true,
+	"then": true, "else": true, "do": true, "end": true, "at": true, "from": true, "have": true, "show": true, "open": true,
+	"theorem": true, "def": true, "by": true, "with": true, "where": true, "instance": true, "structure": true, "class": true,
+	"namespace": true, "section": true, "variable": true, "universe": true, "local": true, "private": true, "protected": true,
+	"deriving": true, "mutual": true, "inductive": true, "export": true, "import": true, "Type": true, "Prop": true, "Sort": true,
+	"forall": true, "exists": true, "return": true, "for": true, "unless": true, "try": true, "catch": true, "finally": true}
 
 func sfBytes(s string) string {
 	if s == "" {
@@ -372,38 +382,41 @@ func (t *sfTrans) stmts(list []ast.Stmt, env *sfEnv, ind string, tail func(*sfEn
 			pn, ok := t.fallible[exprText(t.fset, x.Rhs[0])]
 			v, ok1 := x.Lhs[0].(*ast.Ident)
 			er, ok2 := x.Lhs[1].(*ast.Ident)
-			if !ok || !ok1 || !ok2 || len(rest) == 0 || t.resKind != "except" {
+			if !ok || !ok1 || !ok2 || len(rest) == 0 {
 				return "", fmt.Errorf("unsupported two-value assignment %s", exprText(t.fset, s))
 			}
 			is, ok := rest[0].(*ast.IfStmt)
-			if !ok || is.Init != nil || is.Else != nil || !isNilCheck(is.Cond, er.Name) || len(is.Body.List) != 1 {
-				return "", fmt.Errorf("fallible external %s must be followed by `if %s != nil { return …, %s }`", pn, er.Name, er.Name)
-			}
-			ret, ok := is.Body.List[0].(*ast.ReturnStmt)
-			if !ok || len(ret.Results) != 2 {
-				return "", fmt.Errorf("fallible external %s: error branch must return", pn)
-			}
-			if id, ok := ret.Results[1].(*ast.Ident); !ok || id.Name != er.Name {
-				return "", fmt.Errorf("fallible external %s: error branch must return the error", pn)
+			if !ok || is.Init != nil || is.Else != nil || !isNilCheck(is.Cond, er.Name) {
+				return "", fmt.Errorf("fallible external %s must be followed by `if %s != nil { return … }`", pn, er.Name)
 			}
 			k, err := sfKindOf(t.p.TypesInfo.TypeOf(x.Lhs[0]))
 			if err != nil {
 				return "", err
 			}
-			if k != "str" {
-				return "", fmt.Errorf("fallible external %s must yield a string", pn)
+			if k != "str" && k != "bool" {
+				return "", fmt.Errorf("fallible external %s must yield a string or a bool", pn)
 			}
-			p := t.param(pn, "exceptstr")
+			p := t.param(pn, "except"+k)
+			// error branch: must end in return (control may not fall through with an unusable value)
+			envE := env.clone()
+			envE.vars[er.Name] = "e"
+			envE.types[er.Name] = "err"
+			eb, err := t.stmts(is.Body.List, envE, ind+"  ", func(*sfEnv) (string, error) {
+				return "", fmt.Errorf("error branch of fallible external %s must return", pn)
+			})
+			if err != nil {
+				return "", err
+			}
 			t.counter++
 			nm := fmt.Sprintf("%s_%d", v.Name, t.counter)
 			env2 := env.clone()
 			env2.vars[v.Name] = nm
-			env2.types[v.Name] = "str"
+			env2.types[v.Name] = k
 			body, err := t.stmts(rest[1:], env2, ind+"  ", tail)
 			if err != nil {
 				return "", err
 			}
-			return fmt.Sprintf("match %s with\n%s| .error e => .error e\n%s| .ok %s =>\n%s  %s", p, ind, ind, nm, ind, body), nil
+			return fmt.Sprintf("match %s with\n%s| .error e =>\n%s  %s\n%s| .ok %s =>\n%s  %s", p, ind, ind, eb, ind, nm, ind, body), nil
 		}
 		if len(x.Lhs) != 1 || len(x.Rhs) != 1 || (x.Tok != token.DEFINE && x.Tok != token.ASSIGN) {
 			return "", fmt.Errorf("unsupported assignment %s", exprText(t.fset, s))
@@ -605,6 +618,9 @@ func kindStrFunc(c *Ctx, it Item) (string, error) {
 		ty := sfLeanType(t.seen[n])
 		if t.seen[n] == "exceptstr" {
 			ty = "Except Str Str"
+		}
+		if t.seen[n] == "exceptbool" {
+			ty = "Except Str Bool"
 		}
 		ps = append(ps, fmt.Sprintf("(%s : %s)", n, ty))
 	}
